@@ -4,7 +4,7 @@
 # quick checks against it (VERIF_REPO), removes the worktree.  Evidence goes to a scratch directory.
 set -u
 sid=$1; shift
-wt=/tmp/wt_seed_$sid
+wt=/tmp/wt_seed_${sid}${WT_SUFFIX:-}
 git -C /repo worktree remove --force $wt 2>/dev/null
 git -C /repo worktree add -q --detach $wt HEAD || exit 2
 trap 'git -C /repo worktree remove --force '$wt EXIT
@@ -12,7 +12,7 @@ git -C $wt apply /verif/seeded/$sid/patch.diff || { echo "$sid: patch does not a
 cd /verif
 export VERIF_EVIDENCE_DIR=/verif/.cache/evidence-seeded VERIF_REPO=$wt
 for c in "$@"; do
-  out=$(./check $c --tier ${TIER:-quick} 2>/dev/null | grep -E "^(VIOLATION|KNOWN|HARNESS)" )
+  out=$(./check $c --tier ${TIER:-quick} ${ONLY:+--only "$ONLY"} 2>/dev/null | grep -E "^(VIOLATION|KNOWN|HARNESS)" )
   if echo "$out" | grep -q "^VIOLATION"; then echo "$sid: $c DETECTS ($(echo "$out" | grep -c '^VIOLATION') violation lines)"; echo "$out" | grep VIOLATION | head -2;
   elif echo "$out" | grep -q "^HARNESS"; then echo "$sid: $c HARNESS-BROKEN"; else echo "$sid: $c silent"; fi
 done
